@@ -214,3 +214,43 @@ end
 
 end Ix
 end Cors
+
+/-! ### internal/origins/pattern.go `hostOnly`, `parseHostPattern`; config.go `newConfig` -/
+namespace Cors
+open Gen Pat
+namespace Ix
+
+/-- `(*HostPattern).hostOnly`: `hp.Value[len(subdomainWildcard)+1:]` for a subdomains pattern. -/
+def hostOnlyI (value : Bytes) (kind : Kind) : Chk Bytes :=
+  if kind == .subdomains then sliceFrom value ((Facts.origins_subdomainWildcard.length : Int) + 1)
+  else pure value
+
+/-- `parseHostPattern` over the index-level `fastParseHost`, with `hostOnly` and the trim `pattern.Value[:end]`
+as checked slice expressions (`netip`, `idna` are the list-level model's `ipVerdict`, `idnaOK`). -/
+def parseHostPatternI (ext : Ext) (str : Bytes) : Chk (Except OReason (Bytes × Kind × Bytes)) := do
+  let kind := peekKind str
+  let h ← hostOnlyI str kind                                    -- pattern.hostOnly()
+  match ← fastParseHost h with
+  | none => return .error .invalid
+  | some (host, rest) =>
+    if kind == .subdomains && host.value.length > Facts.origins_maxHostLen - 2 then return .error .invalid
+    if kind == .subdomains && host.assumeIP then return .error .invalid
+    let end_ : Int := len host.value + (if kind == .subdomains then (Facts.origins_subdomainWildcard.length : Int) + 1 else 0)
+    let value ← sliceTo str end_                                -- pattern.Value = pattern.Value[:end]
+    if host.assumeIP then
+      match ipVerdict ext host.value with
+      | .bad => return .error .invalid
+      | .prohibited => return .error .prohibited
+      | .ok lb => return .ok (host.value, if lb then .loopbackIP else .nonLoopbackIP, rest)
+    else if !idnaOK ext host.value then return .error .prohibited
+    else return .ok (value, kind, rest)
+
+/-- `newConfig`: `if len(icfg.acma) > 0 { maxAge, _ := strconv.Atoi(icfg.acma[0]) … }`; the value read. -/
+def acmaHead (acma : List Bytes) : Chk (Option Bytes) :=
+  if lenG acma > 0 then do
+    let v ← idxG acma 0                                         -- icfg.acma[0]
+    return some v
+  else pure none
+
+end Ix
+end Cors
